@@ -511,3 +511,43 @@ class uncached:
 
     def __exit__(self, *a):
         setattr(self.module, self.name, self.orig)
+
+
+def enclosure_bounds(imports, defs, term):
+    """(lo, hi) of a Coq interval term as Python floats (inf when beyond binary64), or None when it is NaN / unbounded."""
+    import re as _re
+    out = coqrun.eval_term(imports, defs, f"let xi := {term} in (I.lower xi, I.upper xi)")
+    fl = _re.findall(r"Float\s*\(BigZ\.BigZ\.(Pos|Neg)\s+(\d+)\)\s*\(BigZ\.BigZ\.(Pos|Neg)\s+(\d+)\)|Specific_ops\.(Fnan)|Float\s*(BigZ\.BigZ\.zero)", out)
+    vals = []
+    for sm, m, se, e, nan, zero in fl:
+        if nan:
+            return None
+        if zero:
+            vals.append(0.0); continue
+        mant = int(m) * (1 if sm == "Pos" else -1)
+        ex = int(e) * (1 if se == "Pos" else -1)
+        try:
+            vals.append(float(mant) * 2.0 ** ex if abs(ex) < 900 else (float("inf") if ex > 0 else 0.0) * (1 if mant > 0 else -1))
+        except OverflowError:
+            vals.append(float("inf") if mant > 0 else float("-inf"))
+    return (vals[0], vals[1]) if len(vals) == 2 else None
+
+
+def beyond_binary64(bounds):
+    """The true value itself cannot be represented: |value| > ~1.7e308 (then a sanitised +-1e16 is all the library can return)."""
+    return bounds is not None and (min(abs(bounds[0]), abs(bounds[1])) > 1e300 or bounds[0] in (float("inf"), float("-inf")))
+
+
+def sanitised_overflow(imports, defs, case, enclosure_of_case, observed):
+    """A failing numeric case is excused when the library returned the sanitiser's +-1e16 / 0 and the TRUE value itself lies beyond
+    binary64 (no float could have been returned): `enclosure_of_case` is the Coq term, with the case bound to `c`, for its enclosure."""
+    try:
+        vals = [abs(float(o)) for o in observed]
+    except Exception:
+        return False
+    if not all(v in (1e16, 0.0) for v in vals):
+        return False
+    try:
+        return beyond_binary64(enclosure_bounds(imports, defs, f"(let c := {case} in {enclosure_of_case})"))
+    except Exception:
+        return False
